@@ -53,3 +53,6 @@ N("c02-n-routing-restructured", "C02", A, TD,
   "                if task_status_future is None or task_status_future.done():\n                    if isinstance(exc, CancelledError):\n                        pass\n                    else:\n                        self._exceptions.append(exc)")
 N("c02-n-exit-nested", "C02", A, EX,
   "if self._cancel_called and not self._parent_cancellation_is_visible_to_us:", "if not self._parent_cancellation_is_visible_to_us and self._cancel_called:")
+
+# from seeded change C02/d (round 2)
+M("c02-body-exception-truthiness", "C02", A, "TaskGroup.__aexit__", "            if exc_val is not None:\n                self.cancel_scope.cancel()", "            if exc_val:\n                self.cancel_scope.cancel()", ["R02-c"])
